@@ -18,6 +18,7 @@ import (
 	"github.com/MinterTeam/minter-go-node/coreV2/minter"
 	"github.com/MinterTeam/minter-go-node/coreV2/transaction"
 	"github.com/MinterTeam/minter-go-node/coreV2/types"
+	"github.com/cosmos/cosmos-sdk/snapshots"
 	amino "github.com/tendermint/go-amino"
 	abci "github.com/tendermint/tendermint/abci/types"
 	tmlog "github.com/tendermint/tendermint/libs/log"
@@ -54,6 +55,11 @@ type Node struct {
 	Panics []PanicRec
 
 	KeepStates int64
+
+	// state-sync snapshots (0 = disabled)
+	SnapInterval int
+	SnapKeep     int
+	SnapDir      string
 }
 
 var openMu sync.Mutex
@@ -90,6 +96,70 @@ func (n *Node) open() {
 	cfg.KeepLastStates = n.KeepStates
 	cfg.StateCacheSize = 10000
 	n.App = minter.NewMinterBlockchain(storage, cfg, nil, n.W.StakePeriod, n.W.ExpirePeriod, tmlog.NewNopLogger())
+	if n.SnapDir != "" {
+		store, err := snapshots.NewStore(n.DBs.Snap, n.SnapDir)
+		if err != nil {
+			panic(err)
+		}
+		n.App.SetSnapshotStore(store, n.SnapInterval, n.SnapKeep)
+	}
+}
+
+// EnableSnapshots turns on state-sync snapshots every `interval` blocks (chunks are kept
+// in a fresh temporary directory; call CleanupSnapshots when done).
+func (n *Node) EnableSnapshots(interval, keep int) {
+	dir, err := os.MkdirTemp("", "verif-snap-")
+	if err != nil {
+		panic(err)
+	}
+	n.SnapDir, n.SnapInterval, n.SnapKeep = dir, interval, keep
+	store, err := snapshots.NewStore(n.DBs.Snap, n.SnapDir)
+	if err != nil {
+		panic(err)
+	}
+	n.App.SetSnapshotStore(store, interval, keep)
+}
+
+// CleanupSnapshots removes the snapshot directory.
+func (n *Node) CleanupSnapshots() {
+	if n.App != nil {
+		n.App.VerifWaitSnapshots()
+	}
+	if n.SnapDir != "" {
+		os.RemoveAll(n.SnapDir)
+	}
+}
+
+// NewEmptyNode creates a node on empty storage without InitChain (target of a state sync).
+func NewEmptyNode(w *World) *Node {
+	types.CurrentChainID = w.ChainID
+	n := &Node{W: w, DBs: NewMemDBSet(), Ctl: &FaultCtl{CrashAt: -1}, TmVals: map[types.Pubkey]int64{}, pendingVal: map[uint64][]abci.ValidatorUpdate{}, KeepStates: 120}
+	n.open()
+	n.Time = BaseTime
+	return n
+}
+
+// RestoreFrom state-syncs this (empty) node from a snapshot of src at the given height:
+// OfferSnapshot, then every chunk through LoadSnapshotChunk/ApplySnapshotChunk.
+// Returns a description of the failure, or "".
+func (n *Node) RestoreFrom(src *Node, snap *abci.Snapshot, appHash []byte) string {
+	offer := n.App.OfferSnapshot(abci.RequestOfferSnapshot{Snapshot: snap, AppHash: appHash})
+	if offer.Result != abci.ResponseOfferSnapshot_ACCEPT {
+		return fmt.Sprintf("OfferSnapshot result %s", offer.Result)
+	}
+	for i := uint32(0); i < snap.Chunks; i++ {
+		ch := src.App.LoadSnapshotChunk(abci.RequestLoadSnapshotChunk{Height: snap.Height, Format: snap.Format, Chunk: i})
+		if len(ch.Chunk) == 0 {
+			return fmt.Sprintf("LoadSnapshotChunk %d returned nothing", i)
+		}
+		ap := n.App.ApplySnapshotChunk(abci.RequestApplySnapshotChunk{Index: i, Chunk: ch.Chunk, Sender: "src"})
+		if ap.Result != abci.ResponseApplySnapshotChunk_ACCEPT {
+			return fmt.Sprintf("ApplySnapshotChunk %d result %s", i, ap.Result)
+		}
+	}
+	// consensus-side bookkeeping is taken over from the source (a light client would provide it)
+	n.LastHeight, n.Time = snap.Height, src.Time
+	return ""
 }
 
 func (n *Node) guard(call string, f func()) (panicked bool) {
@@ -387,4 +457,11 @@ func (n *Node) Fork() *Node {
 	f.LastHeight, f.LastAppHash, f.Time = n.LastHeight, n.LastAppHash, n.Time
 	f.open()
 	return f
+}
+
+// CopyPendingValidators copies the not-yet-effective validator updates from another node.
+func (n *Node) CopyPendingValidators(src *Node) {
+	for h, us := range src.pendingVal {
+		n.pendingVal[h] = append([]abci.ValidatorUpdate{}, us...)
+	}
 }
